@@ -1,4 +1,4 @@
-From V Require Import model.Base model.Conc model.Events model.SeqLock.
+From V Require Import model.Base model.Conc model.Events model.SeqLock model.Blackboard.
 Require Extraction.
 Require Import ExtrOcamlBasic.
 Extraction Language OCaml.
@@ -11,4 +11,5 @@ Definition sl_loan (v : SeqLock.value) := SeqLock.OLoan v.
 Definition sl_discard (v : SeqLock.value) := SeqLock.OLoanDiscard v.
 Definition sl_final (g : SeqLock.gst) := (SeqLock.wc g, SeqLock.vhash (SeqLock.current g)).
 Definition sl_in_copy (l : SeqLock.lst) := SeqLock.in_copy (SeqLock.at_pc l).
-Extraction "../ocaml/c12/model.ml" sl_step1 sl_fstep1 sl_init sl_ops sl_store sl_loan sl_discard sl_final sl_in_copy N.of_nat N.to_nat.
+Extraction "../ocaml/c12/model.ml" sl_step1 sl_fstep1 sl_init sl_ops sl_store sl_loan sl_discard sl_final sl_in_copy N.of_nat N.to_nat
+  bb_new bb_step bb_sp_new bb_sp_step bb_sp_digest_ok bb_nwriters bb_nreaders.
